@@ -7,6 +7,8 @@ package main
 import (
 	"encoding/json"
 	"fmt"
+	gproto "google.golang.org/protobuf/proto"
+	"google.golang.org/protobuf/types/dynamicpb"
 	"math"
 	"math/rand"
 
@@ -315,7 +317,13 @@ func (c *c07) run(pc PReadCase, doc []byte, newDoc bool, expect *PVal) {
 		if expect != nil {
 			ex = *expect
 		}
-		c.out.Emit(map[string]interface{}{"ev": "PDoc", "schema": c.env.schema, "ref": ref, "b": B(doc), "expect": ex, "proto": c.env.text})
+		// fields not in ascending number order (the reference encoder does not promise it): the specification's own
+		// encoding of the reference view can then only be compared by length
+		anyorder := false
+		if dm := dynamicpb.NewMessage(c.env.rroot); gproto.Unmarshal(doc, dm) == nil {
+			anyorder = string(refMarshal(dm)) != string(doc)
+		}
+		c.out.Emit(map[string]interface{}{"ev": "PDoc", "schema": c.env.schema, "ref": ref, "b": B(doc), "expect": ex, "proto": c.env.text, "anyorder": anyorder})
 	}
 	items := fixItems(pc.Path)
 	buf := append([]byte(nil), doc...)
@@ -340,6 +348,43 @@ func (c *c07) run(pc PReadCase, doc []byte, newDoc bool, expect *PVal) {
 	}
 	guardP("V.GetByPath", func() PRes { return c.observe(root.GetByPath(ps...), "V.GetByPath", items, true) })
 	guardP("V.chain", func() PRes { return c.observe(c.chain(root, items), "V.chain", items, true) })
+	// bulk lookup: the last path item asked of its parent through GetMany (together with a second, absent, sibling)
+	if n := len(ps); n > 0 && (items[n-1].K == "id" || items[n-1].K == "idx") {
+		guardP("V.GetMany", func() PRes {
+			single := root.GetByPath(ps...)
+			parent := root
+			if n > 1 {
+				parent = root.GetByPath(ps[:n-1]...)
+			}
+			if parent.IsError() {
+				return c.observe(single, "V.GetMany", items, true)
+			}
+			pns := []pgen.PathNode{{Path: ps[n-1]}}
+			if items[n-1].K == "id" {
+				pns = append(pns, pgen.PathNode{Path: pgen.NewPathFieldId(dproto.FieldNumber(536870000))})
+			}
+			err := parent.GetMany(pns, &pgen.Options{})
+			got := pns[0].Node
+			r := PRes{API: "V.GetMany", Scal: pNone(), Msg: pNone(), D: Dump{K: "skipped", B: B{}, E: []DumpEntry{}}}
+			if _, _, _, ok := refWalk(c.env.rroot, items); !ok {
+				r.Undecl = true
+			}
+			switch {
+			case err != nil:
+				r.St = "err"
+				if single.IsErrNotFound() {
+					r.St = "notfound" // (an index beyond the list makes the whole bulk lookup fail: same verdict as the single lookup)
+				}
+			case got.IsError() || (got.Type() == 0 && len(got.Raw()) == 0):
+				r.St = "notfound"
+			case !single.IsError() && string(single.Raw()) == string(got.Raw()) && single.Type() == got.Type():
+				return c.observe(single, "V.GetMany", items, true)
+			default:
+				r.St, r.NK = "found", "unexpected"
+			}
+			return r
+		})
+	}
 	if np, ok := c.nameItems(items); ok {
 		nps := make([]pgen.Path, len(np))
 		for i, it := range np {
@@ -449,7 +494,7 @@ func (c *c07) genRandom(seed int64, base, n int) {
 		c.setSchema(randSchema(r))
 		for k := 0; k < 3; k++ {
 			m := randMsgPB(r, c.env.rroot, 0, pbGenCfg{maxStr: 400})
-			doc := refMarshal(m)
+			doc := refMarshalAnyOrder(r, m)
 			ref := dumpMsg(m)
 			c.out.Begin(base+i, PReadCase{Schema: &c.env.schema, B: B(doc)})
 			for j := 0; j < 6; j++ {
